@@ -256,7 +256,7 @@ def body_selection(case, ctx):
     spec = case["kernel"]
     if rk.has(spec, "CP"):
         raise Inconclusive("change-point kernels excluded from the (expensive) optimiser runs")
-    if np.ptp(y) <= 0 or np.any(np.ptp(X, axis=0) <= 1e-9 * (np.abs(X).max(axis=0) + 1e-300)):
+    if np.ptp(y) <= 1e-6 * ys or np.std(y) <= 1e-6 * ys or np.any(np.ptp(X, axis=0) <= 1e-6 * (np.abs(X).max(axis=0) + xs)):
         raise Inconclusive("degenerate data for bound estimation")
     noise_kw, S = gc.noise_matrix(case, ys)
     tag = f"{case['optimizer']}:{'loo' if case['cross_val'] else 'marginal'}"
